@@ -49,16 +49,22 @@ def rule_declarations(ctx):
     ar = ("fieldof", ("proj", PRED, (("tuple", "1"),)), "arity")
     symb = ("fieldof", ("proj", PRED, (("tuple", "1"),)), "symbol")
     idx = ("proj", PRED, (("tuple", "0"),))
-    pd = w.get("predicate_{i}", [])
-    ok = len(pd) == 2
-    if ok:
-        pos = [s for s in pd if s[3] == ((("bin", "Gt", ar, ("lit", 0)), True),)]
-        zer = [s for s in pd if s[3] == ((("bin", "Gt", ar, ("lit", 0)), False),)]
-        ok = len(pos) == 1 and len(zer) == 1
-        if ok:
-            inp = ("call", "Itertools::intersperse", (("call", "iter::repeat_n", (("lit", "general"), ar)), ("lit", " * ")))
-            ok = pos[0][4] == ("write", "tff(predicate_{i}, type, {symbol}: ({input}) > $o).\n", (idx, symb, inp)) and \
-                zer[0][4] == ("write", "tff(predicate_{i}, type, {symbol}: $o).\n", (idx, symb))
+    # the declaration written for one predicate, specialised on its arity (0 / positive): whichever way the test is written
+    def declared(arity):
+        ev2 = sym.Eval(fx, inline_depth=0)
+        ev2.loop_args = [("list", (("param", "$i"), ("ctor", "Predicate", (("arity", ("lit", arity)), ("symbol", ("param", "$sym"))))))]
+        ev2.function(b)
+        return [o[2] for o in ev2.out if o[2][0] == "write" and o[2][1].startswith("tff(predicate_") and not [c for c in o[0] if c[0][0] != "arm"]]
+    norm = lambda t: re.sub(r"\{\w*\}", "{}", t)
+    z, p2 = declared(0), declared(2)
+    inp2 = ("call", "Itertools::intersperse", (("call", "iter::repeat_n", (("lit", "general"), ("lit", 2))), ("lit", " * ")))
+    ok = len(z) == 1 and len(p2) == 1 and norm(z[0][1]) == "tff(predicate_{}, type, {}: $o).\n" and z[0][2] == (("param", "$i"), ("param", "$sym")) and \
+        norm(p2[0][1]) == "tff(predicate_{}, type, {}: ({}) > $o).\n" and p2[0][2] == (("param", "$i"), ("param", "$sym"), inp2)
+    # the loop runs over enumerate(self.predicates())
+    ev3 = sym.Eval(fx, inline_depth=0)
+    ev3.function(b)
+    src_ok = any(l == ("call", "Iterator::enumerate", (("call", "Problem::predicates", (SELF,)),)) for o in ev3.out if o[2][0] == "write" and o[2][1].startswith("tff(predicate_") for l in o[1])
+    ok = ok and src_ok
     ctx.add("DECL", "predicates", ok, site, "p/n is declared `p: (general * .. * general) > $o` with n factors, p/0 as `p: $o`, once per element of self.predicates()")
     SYM = ("each", ("call", "Iterator::enumerate", (("call", "Problem::symbols", (SELF,)),)))
     sd = w.get("type_symbol_{i}", [])
